@@ -451,6 +451,10 @@ class Context:
         :param event: The network information of the remote Supvisors instance.
         :return: None.
         """
+        # NOTE: the event is empty when the network information could not be read from the remote instance
+        if not event or event.get('identifier') not in self.instances:
+            self.logger.warn(f'Context.on_identification_event: unexpected identification event={event}')
+            return
         # only accepted if later than CHECKING date
         identifier, timestamp = event['identifier'], event['now_monotonic']
         status: SupvisorsInstanceStatus = self.instances[identifier]
